@@ -314,6 +314,9 @@ def patch_module_in(mod):
         if not isinstance(target, types.FunctionType) or target.__code__.co_freevars:
             continue
         fn.decorator_list = []
+        fn.returns = None                     # annotations may name class-level aliases that are not in the module namespace; only the code object is used
+        for a in fn.args.posonlyargs + fn.args.args + fn.args.kwonlyargs + [x for x in (fn.args.vararg, fn.args.kwarg) if x]:
+            a.annotation = None
         new = InRewriter().visit(ast.Module(body=[fn], type_ignores=[]))
         ast.fix_missing_locations(new)
         ns = {}
